@@ -172,8 +172,9 @@ def stepLine (st : DState) (line : String) : DState × String :=
       | none => (st, "bad-op")
       | some c =>
         let r := step driverExt cfg Nsq.Model.GateRegex.matcher (fun _ => ans) now c st.broker cmd
-        ({ st with broker := r.broker, conns := setConn id r.conn st.conns },
-         s!"{"|".intercalate (r.replies.map showReply)} close={b01 r.close} q={showQuery r.query} tls={b01 r.conn.tls} st={showState r.conn.state} authed={b01 (hasAuthorizations r.conn)} broker={showBroker r.broker}")
+        let a := after r
+        ({ st with broker := a.broker, conns := setConn id a.conn st.conns },
+         s!"{"|".intercalate (r.replies.map showReply)} close={b01 r.close} q={showQuery r.query} tls={b01 r.conn.tls} st={showState r.conn.state} authed={b01 (hasAuthorizations r.conn)} broker={showBroker a.broker}")
     | _, _, _, _, _ => (st, "bad-op")
   | "cx" :: id :: now :: ans :: cmd =>
     match st.cfg, id.toNat?, now.toInt?, parseAns ans, parseCmd cmd with
@@ -182,7 +183,7 @@ def stepLine (st : DState) (line : String) : DState × String :=
       | none => (st, "bad-op")
       | some c =>
         let r := step driverExt cfg Nsq.Model.GateRegex.matcher (fun _ => ans) now c st.broker cmd
-        let d := disconnect r.conn r.broker
+        let d := disconnect (after r).conn (after r).broker
         ({ st with broker := d.2, conns := setConn id d.1 st.conns },
          s!"{"|".intercalate (r.replies.map showReply)} close={b01 r.close} q={showQuery r.query} tls={b01 r.conn.tls} st={showState r.conn.state} authed={b01 (hasAuthorizations r.conn)} broker={showBroker d.2}")
     | _, _, _, _, _ => (st, "bad-op")
